@@ -135,6 +135,9 @@ func compareModel(m *hx.Model, ep *endpoint, res []opRes) string {
 // can the model follow this endpoint? (it needs the reader scripts for compressed input and the deflate output
 // for compressed output)
 func modelable(c cfg) bool {
+	if c.Handlers != "" {
+		return false // the model covers the OnMessage-only configuration
+	}
 	if c.EnComp && c.Decomp == 0 {
 		return false
 	}
